@@ -18,6 +18,8 @@ def run(tier, seed):
                  dict(W=0, pp=0, execs=8, ops=40, perturb=2, nt=4)]
     drive(v, PROP, seed, runs, tier)
     handoff_edges(v, seed, tier)
+    if tier != "quick":
+        asan_lanes(v, PROP, seed)
     return v.finish()
 
 def handoff_edges(v, seed, tier):
